@@ -40,7 +40,8 @@ NoFn == [n \in {} |-> 0]
 (*   state : x is produced by r2 with coefficient time * y + p (state- and  *)
 (*           time-dependent); d1 = x * time + q depends on time as well    *)
 (*   sur   : as par's r2, plus a two-output surrogate (one flux s1         *)
-(*           producing y, one surrogate variable s2)                       *)
+(*           producing y with the parameter-computed coefficient 2p --     *)
+(*           the only computed coefficient of y; one surrogate variable s2)*)
 (*   lin   : state-independent rates (the exact flow is linear in time:    *)
 (*           used to bind the Simulator path, see SimResult)               *)
 (***************************************************************************)
@@ -67,7 +68,7 @@ Content(variant) ==
                                                              ELSE Calc("id", <<"q">>))]],
      sur  |-> IF variant = "sur"
               THEN ("s" :> [fns |-> <<"add", "sub">>, args |-> <<"x", "p">>, outs |-> <<"s1", "s2">>,
-                            st |-> ("s1" :> ("y" :> M!Num(1)))])
+                            st |-> ("s1" :> ("y" :> Calc("dbl", <<"p">>)))])
               ELSE NoFn,
      ro   |-> ("ro" :> [fn |-> "mul", args |-> <<"d1", "dp">>]),
      data |-> NoFn]
